@@ -69,6 +69,9 @@ pub struct LoopCase {
     /// Allocation scripts only run while the thread's round index is below this.
     #[serde(default)]
     pub alloc_until_round: Option<u64>,
+    /// Allocation scripts only run once the thread's round index has reached this (quiet first rounds).
+    #[serde(default)]
+    pub alloc_from_round: Option<u64>,
     /// Bit i set = thread i runs the allocation scripts (None = every thread): a thread that performs no
     /// allocator operation at all next to one that does.
     #[serde(default)]
@@ -110,6 +113,7 @@ impl LoopCase {
             panic: None,
             alloc: [0; 5],
             alloc_until_round: None,
+            alloc_from_round: None,
             alloc_threads: None,
             unforced_precision: false,
             cost: [vec![0], vec![0], vec![1000], vec![0], vec![0]],
@@ -342,6 +346,7 @@ impl Sites {
         };
         // Allocation script, thread-distinct sizes.
         let scripts_on = self.case.alloc_until_round.map_or(true, |r| clock::round_of_current_thread() < r)
+            && self.case.alloc_from_round.map_or(true, |r| clock::round_of_current_thread() >= r)
             && self.case.alloc_threads.map_or(true, |mask| mask >> thread & 1 == 1);
         for &op in ALLOC_SCRIPTS[if scripts_on { self.case.alloc[site] } else { 0 }] {
             let bump = thread as u64 * 4096;
